@@ -1,6 +1,7 @@
 package sx
 
 import (
+	"os"
 	"fmt"
 	"go/types"
 	"strings"
@@ -185,6 +186,9 @@ func init() {
 					switch p.(type) {
 					case targetPanic, runtimeErr:
 						i.lastCaught = fmt.Sprint(p)
+						if os.Getenv("VERIF_SHOWCAUGHT") != "" {
+							fmt.Fprintln(os.Stderr, "verifCatch caught:", i.lastCaught, "at", i.panicSite)
+						}
 						if i.panicSite != "" {
 							i.lastCaughtSite = i.panicSite
 						}
